@@ -42,7 +42,7 @@ Inductive event :=
 | EPub (g : N) (m : message) (k : option N) | EPubRet (g : N) (ok : bool)
 | EDeqCall (g : N) | EDeqRet (g : N) (r : deq_res) | EDeqAck (g : N)
 | ETerm (g : N) (ok : bool)
-| EAckCall (k : N) (g : N) | EAckRet (k : N)
+| EAckCall (k : N) (g : N) | EAckRet (k : N) (g : N)
 | ENextId (g : N) (id : N)
 | ESave (g : N) (d : direction) (p : packet) (ok : bool)
 | ELookup (g : N) (d : direction) (id : N) (r : lookup_res)
@@ -71,7 +71,7 @@ Inductive cstat :=
 | CReg                      (* handed out, not invoked *)
 | CDel (g : N)              (* pubcomp closure running: next its EDelete Incoming id *)
 | CDieLog (g : N) | CDieClose (g : N)   (* its delete failed: die(SessionError) *)
-| CRun                      (* running: next EAckRet *)
+| CRun (g : N)              (* running: next EAckRet *)
 | CDone.
 Record closure := Clo { c_k : N; c_conn : N; c_kind : ackkind; c_stat : cstat }.
 
@@ -437,6 +437,14 @@ Definition step_ack (s : bc) (e : event) : option bc :=
 
 (* ---------------------------------------------------------------- closures *)
 
+(* a goroutine that is inside a closure does nothing else until the closure returns *)
+Definition clo_on (g : N) (c : closure) : bool :=
+  match c_stat c with
+  | CDel g' | CDieLog g' | CDieClose g' | CRun g' => g =? g'
+  | _ => false
+  end.
+Definition in_closure (s : bc) (g : N) : bool := existsb (clo_on g) (clos s).
+
 (* may the ack queue of the closure's connection still be fed? *)
 Definition clo_live (s : bc) (c : closure) : bool :=
   (c_conn c =? conn_no s) && negb (match lp s with LEnd => true | _ => false end).
@@ -451,11 +459,12 @@ Definition step_clo (s : bc) (e : event) : option bc :=
       | Some c =>
           match c_stat c with
           | CReg =>
+              if in_closure s g then None else
               (* the packet is queued by the closure itself: for a pubcomp closure after its
                  delete, otherwise at once (the acker may send it before EAckRet is logged) *)
               match c_kind c with
               | KPubcomp _ => Some (set_clos s (clo_set (clos s) k (CDel g)))
-              | _ => Some (set_clos (clo_enqueue s c) (clo_set (clos s) k CRun))
+              | _ => Some (set_clos (clo_enqueue s c) (clo_set (clos s) k (CRun g)))
               end
           | CDone => Some s                                   (* sync.Once: a second call does nothing *)
           | _ => None
@@ -465,7 +474,7 @@ Definition step_clo (s : bc) (e : event) : option bc :=
   | EDelete g Incoming id ok =>
       match clo_del_find (clos s) g id with
       | Some c =>
-          if ok then Some (set_clos (clo_enqueue (sess_delete s Incoming id) c) (clo_set (clos s) (c_k c) CRun))
+          if ok then Some (set_clos (clo_enqueue (sess_delete s Incoming id) c) (clo_set (clos s) (c_k c) (CRun g)))
           else Some (set_clos s (clo_set (clos s) (c_k c) (CDieLog g)))
       | None => None
       end
@@ -477,15 +486,15 @@ Definition step_clo (s : bc) (e : event) : option bc :=
   | EConnClose g =>
       match clo_stat_find (clos s) (fun st => match st with CDieClose g' => g =? g' | _ => false end) with
       | Some c =>
-          let s1 := set_clos s (clo_set (clos s) (c_k c) CRun) in
+          let s1 := set_clos s (clo_set (clos s) (c_k c) (CRun g)) in
           Some (if c_conn c =? conn_no s then set_dying s1 else s1)
       | None => None
       end
-  | EAckRet k =>
+  | EAckRet k g =>
       match clo_find (clos s) k with
       | Some c =>
           match c_stat c with
-          | CRun => Some (set_clos s (clo_set (clos s) k CDone))
+          | CRun g' => guard (g =? g') (set_clos s (clo_set (clos s) k CDone))
           | CDone => Some s
           | _ => None
           end
@@ -583,12 +592,28 @@ Definition ev_g (e : event) : option N :=
 
 Definition conn_open (s : bc) : bool := match lp s with LEnd => false | _ => true end.
 
+(* EQuiescent is the harness' claim that the connection is alive and nothing moves:
+   the processor is back in Receive, the dequeuer is blocked inside Dequeue, the
+   acker has nothing to send, no closure is running and cleanup has not begun.
+   The model accepts the marker only in such states, so "at quiescence no
+   obligation is pending" can be stated over traces. *)
+Definition clo_idle (c : closure) : bool :=
+  match c_stat c with CReg | CDone => true | _ => false end.
+Definition quiescent (s : bc) : bool :=
+  conn_open s && negb (dying s)
+  && (match pp s with PLoop => true | _ => false end)
+  && (match dp s with DWait => true | _ => false end)
+  && (match ap s with AIdle => true | _ => false end)
+  && (match ackq s with [] => true | _ => false end)
+  && (match lp s with LNone => true | _ => false end)
+  && forallb clo_idle (clos s).
+
 Definition step (s : bc) (e : event) : option bc :=
   match e with
   | ENewConn => if conn_open s then None else Some (new_conn s)
   | ECloseReq => guard (conn_open s) s
-  | EQuiescent => guard (conn_open s && negb (dying s)) s
-  | EAckCall _ _ | EAckRet _ => step_clo s e
+  | EQuiescent => guard (quiescent s) s
+  | EAckCall _ _ | EAckRet _ _ => step_clo s e
   | EClosed => step_cleanup s e
   | _ =>
       if negb (conn_open s) then
@@ -601,7 +626,8 @@ Definition step (s : bc) (e : event) : option bc :=
           (* a running closure's own events come first: a synchronous ack runs on the
              goroutine that is inside the backend call *)
           first_some (step_clo s e)
-          (if is_role (gproc s) g then step_proc s e
+          (if in_closure s g then None
+           else if is_role (gproc s) g then step_proc s e
            else if is_role (gdeq s) g then step_deq s e
            else if is_role (gack s) g then step_ack s e
            else if is_role (gcl s) g then step_cleanup s e
